@@ -1,4 +1,6 @@
 import Setec.Driver.DBDrv
+import Setec.Driver.CryptoDrv
+import Setec.Driver.FsDrv
 import Setec.Generated.Facts
 open Setec.Driver
 
@@ -31,6 +33,16 @@ def main (args : List String) : IO UInt32 := do
     let st ← loop stdin (aclLine d) {} 1
     printCover st.cover
     IO.println s!"SUMMARY family=acl steps={st.cases} clause_evals={st.cases} propfail={st.fails} diverge={st.diverges}"
+    return 0
+  | ["crypto"] | ["golden"] =>
+    let st ← loop stdin cryptoLine {} 1
+    printCover st.cover
+    IO.println s!"SUMMARY family=crypto steps={st.cases} clause_evals={st.cases} propfail={st.fails} diverge={st.diverges}"
+    return 0
+  | ["fs"] =>
+    let st ← loop stdin fsLine {} 1
+    printCover st.cover
+    IO.println s!"SUMMARY family=fs steps={st.cases} clause_evals={st.cases} propfail={st.fails} diverge={st.diverges}"
     return 0
   | _ =>
     IO.eprintln "usage: driver <family>"
